@@ -11,6 +11,11 @@
    binding's save_before(event) is true ([save]), then the handler does
    ANYTHING to the buffer - the payload (t, c) is the text and cursor it
    leaves behind.  [Undo] and [Redo] are Buffer.undo() / Buffer.redo().
+   [Reset t c] is Buffer.reset(Document(t, c)): what PromptSession.prompt() does
+   to its default buffer at the start of every prompt (and validate_and_handle
+   after accepting): the text and cursor of the new document, and
+       self._undo_stack = []; self._redo_stack = []
+   A new editing session starts there.
    Definitions only; proofs are in Proofs/C07_UndoFacts.v. *)
 From Coq Require Import ZArith List Bool.
 From PTK Require Import Lib.Sx Lib.Py.
@@ -30,7 +35,8 @@ Record ust := mkust {
 Inductive uop :=
 | Cmd (save : bool) (t : str) (c : Z)
 | Undo
-| Redo.
+| Redo
+| Reset (t : str) (c : Z).
 
 (* A fresh Buffer / Buffer.reset(document): empty stacks. *)
 Definition fresh (t : str) (c : Z) : ust := mkust t c [] [] false.
@@ -109,6 +115,7 @@ Definition ustep (s : ust) (o : uop) : ust :=
       set_state (if save then save_to_undo_stack s true else s) t c
   | Undo => undo s
   | Redo => redo s
+  | Reset t c => mkust t c [] [] (ubad s)
   end.
 
 Definition urun (s : ust) (ops : list uop) : ust := fold_left ustep ops s.
@@ -117,8 +124,13 @@ Definition urun (s : ust) (ops : list uop) : ust := fold_left ustep ops s.
    strictly before the current one, newest first. *)
 Definition here (s : ust) : snap := (utext s, ucur s).
 
+(* Buffer.reset starts a new session: its ghost history starts empty. *)
 Definition gstep (g : ust * list snap) (o : uop) : ust * list snap :=
-  (ustep (fst g) o, here (fst g) :: snd g).
+  (ustep (fst g) o, match o with Reset _ _ => [] | _ => here (fst g) :: snd g end).
+
+(* the text the current session started with: the document of the last reset *)
+Definition session_start (t : str) (ops : list uop) : str :=
+  fold_left (fun acc o => match o with Reset t' _ => t' | _ => acc end) ops t.
 
 Definition grun (s : ust) (ops : list uop) : ust * list snap :=
   fold_left gstep ops (s, []).
@@ -140,7 +152,7 @@ Fixpoint iter_op (o : uop) (k : nat) (s : ust) : ust :=
 (* ---- well-formedness (what the real Buffer guarantees of itself) ---- *)
 Definition snap_ok (e : snap) : Prop := 0 <= snd e <= len (fst e).
 Definition op_ok (o : uop) : Prop :=
-  match o with Cmd _ t c => 0 <= c <= len t | _ => True end.
+  match o with Cmd _ t c | Reset t c => 0 <= c <= len t | _ => True end.
 Definition wf (s : ust) : Prop :=
   snap_ok (here s) /\ Forall snap_ok (ustack s) /\ Forall snap_ok (rstack s) /\ ubad s = false.
 
@@ -159,6 +171,11 @@ Definition dec_uop (x : sx) : option uop :=
       end
   | L [A 2] => Some Undo
   | L [A 3] => Some Redo
+  | L [A 4; t; A c] =>
+      match as_str t with
+      | Some t' => if (0 <=? c) && (c <=? len t') then Some (Reset t' c) else None
+      | None => None
+      end
   | _ => None
   end.
 
